@@ -3,6 +3,7 @@ mod fx;
 mod model;
 mod oracle;
 mod ph;
+mod props;
 mod sess;
 mod ffi;
 mod tables;
@@ -50,6 +51,12 @@ fn main() {
                 "ph0" => ph::ph0(&tier, seed, &a["meta"]),
                 "fs0" => ph::fs0(&tier, seed, &a["meta"]),
                 "c18" => ph::c18(&tier, seed, &a["meta"]),
+                "c05" => props::c05(&tier, seed, &a["meta"]),
+                "c06" => props::c06(&tier, seed, &a["meta"]),
+                "c08" => props::c08(&tier, seed, &a["meta"]),
+                "c09" => props::c09(&tier, seed, &a["meta"]),
+                "c02" => props::c02(&tier, seed, &a["meta"]),
+                "c03" => props::c03(&tier, seed, &a["meta"]),
                 "c12" => fx::c12(&tier, seed, &a["meta"]),
                 "c13" => fx::c13(&tier, seed, &a["meta"]),
                 "c14" => fx::c14(&tier, seed, &a["meta"]),
